@@ -142,6 +142,7 @@ def scope_ast(toks, context, prelude):
         pos[0] += 1
         if t == 'letx': return Let('x', lit())
         if t == 'lety': return Let('y', lit())
+        if t == 'letxx': return Let('x', Op('+', V('x'), lit()))
         if t == 'setx': return Asg('x', lit())
         if t == 'sety': return Asg('y', lit())
         if t == 'readx': return Pr('x=~\\n', [V('x')])
@@ -198,7 +199,7 @@ def shadow_relevant(toks):
             depth -= 1
         elif x.startswith('let') and depth > 0:
             v = x[3]
-            if any(y in ('let' + v, 'set' + v, 'read' + v, 'methr' + v, 'methw' + v) for j, y in enumerate(toks) if j != i):
+            if any(y in ('let' + v, 'let' + v + v, 'set' + v, 'read' + v, 'methr' + v, 'methw' + v) for j, y in enumerate(toks) if j != i):
                 return True
     return False
 
@@ -232,7 +233,7 @@ def c12(tier):
     maxlen = 5
     chk.rule = ('TLC enumerates on the fly every statement sequence (MC_Scope: let/assign/read of x and y, call f, call o.m, inline objects whose method reads/assigns the free name x, begin/end to depth 2, if-true, if-false-else, '
                 'while-once) up to %d statements; each is placed at top level, in a top-level block, in a function body and in a method body, with and without global x, y '
-                '(thorough: all 8 placements up to length %d, one placement round-robin beyond; quick: 8 placements to length 2, 2-4 at length 3, two placements for every length-4 sequence in which a block-local let meets another mention of the same name and for every length-5 sequence with two sibling blocks sharing a name), written literals numbered; TLC runs the README semantics FMLSource on the AST (scope '
+                '(thorough: all 8 placements up to length %d, one placement round-robin beyond; quick: 8 placements to length 2, 1-4 at length 3, two placements for every length-4 sequence in which a block-local let meets another mention of the same name and for every length-5 sequence with two sibling blocks sharing a name), written literals numbered; TLC runs the README semantics FMLSource on the AST (scope '
                 'stack, LeaveRestores and CallIsolated checked in every state) and the real pipeline must print the same values and stop at the same point. '
                 'distinct_nontrivial = distinct programs judged inside the fragment.' % (maxlen, 4 if tier == 'thorough' else 3))
     exe = build('debug')
@@ -252,7 +253,7 @@ def c12(tier):
             places = CONTEXTS
         elif nst == 3:
             # four of the eight placements when a block-local let meets another mention of its name, two otherwise
-            places = CONTEXTS[(si % 2)::2] if shadow_relevant(toks) else [CONTEXTS[si % 8], CONTEXTS[(si + 3) % 8]]
+            places = CONTEXTS[(si % 2)::2] if shadow_relevant(toks) else [CONTEXTS[si % 8]]
         elif nst == 4 and shadow_relevant(toks):
             places = [('fun', True), ('block', True)] if si % 2 == 0 else [('meth', True), ('top', True)]
         elif nst == 5 and sibling_relevant(toks):
@@ -382,6 +383,9 @@ COUNT_PROBES = [
     ('array-size-variable-changed-by-initializer', 'let n = 4; let a = array(n, begin n <- n - 1; n end); print("~ ~\\n", a, n)'),
     ('array-size-variable-changed-by-called-function', 'let n = 3; function dec() -> begin n <- n - 1; n end; print("~ ~\\n", array(n, dec()), n)'),
     ('array-size-field-changed-by-initializer', 'let o = object begin let n = 3 end; print("~\\n", array(o.n, begin o.n <- o.n - 1; o.n end))'),
+    ('literal-size-0-effectful-initializer', 'let c = 0; function t() -> begin c <- c + 1; print("init~;", c); c end; let a = array(0, t()); let b = array(1, t()); let d = array(2, t()); print("~ ~ ~ ran ~\\n", a, b, d, c)'),
+    ('literal-size-negative-effectful-initializer', 'let c = 0; function t() -> begin c <- c + 1; print("init~;", c); c end; print("before\\n"); let a = array(-1, t()); print("never ~\\n", c)'),
+    ('literal-size-1-block-initializer', 'let a = array(1, begin print("once;"); 5 end); print("~\\n", a)'),
     ('loop-condition-count', 'let n = 0; function c() -> begin n <- n + 1; print("c~;", n); n < 3 end; while c() do print("b;"); print(" n=~\\n", n)'),
     ('object-parent-once', 'let n = 0; function p() -> begin n <- n + 1; null end; let o = object extends p() begin let a = p(); let b = p() end; print("~ ~\\n", n, o)'),
 ]
@@ -417,6 +421,15 @@ def c13(tier):
         ast['es'][-1] = Blk([copy.deepcopy(shape_expr), Pr(' discarded\\n')])
         ast['es'].append(Wh(Op('<', Asg('n', Op('+', V('n'), I(1))), I(3)), copy.deepcopy(shape_expr)))        # ... and as a loop body
         progs.append({'name': 'order-discarded:' + ' '.join(sh), 'text': unparse(ast), 'ast': strip_marks(ast)})
+    # every binary operator with a marker in both operand positions (order must not depend on the operator), kept and discarded
+    for opn in ['|', '&', '==', '!=', '<', '>', '<=', '>=', '+', '-', '*', '/', '%']:
+        mk = lambda k: Blk([Pr('%d;' % k), I(10 + k)])
+        ast = Top([Pr(' R=~\\n', [Op(opn, mk(1), mk(2))]), Blk([Op(opn, mk(3), mk(4)), Pr(' d\\n')]), Pr(' R=~\\n', [MC(mk(5), opn, [mk(6)])])])
+        progs.append({'name': 'order-operator:' + opn, 'text': unparse(ast), 'ast': strip_marks(ast)})
+        # ... and with an object that defines the operator (the method must be the one that runs, with receiver and argument in source order)
+        ob = lambda k: Blk([Pr('%d;' % k), Obj(N(), [Let('v', I(k)), Fun(opn, ['o'], Blk([Pr('user%s;' % opn), GF(V('this'), 'v')]))])])
+        ast = Top([Pr(' R=~\\n', [Op(opn, ob(1), mk(2))])])
+        progs.append({'name': 'order-user-operator:' + opn, 'text': unparse(ast), 'ast': strip_marks(ast)})
     # evaluation counts that only show through aliasing or allocation: compound initializers built from constants, effectful object expressions of discarded reads
     for nm, text in COUNT_PROBES:
         progs.append({'name': 'count:' + nm, 'text': text, 'ast': None})
@@ -441,6 +454,9 @@ def dispatch_ast(d):
         ms = [Let('tag', I(i))]
         if 'M' in defs:
             ms.append(Fun('m', ['a', 'b'], Blk([Pr('M%d;' % i), Op('+', Op('+', V('a'), V('b')), GF(V('this'), 'tag'))])))
+        if '>' in defs:
+            ms.append(Fun('>', ['o'], Blk([Pr('>%d;' % i), Op('+', GF(V('this'), 'tag'), V('o'))])))
+            ms.append(Fun('>=', ['o'], Blk([Pr('>=%d;' % i), V('o')])))
         if 'a' in defs:
             ms.append(Fun('add', ['n'], Blk([Pr('a%d;' % i), Op('*', V('n'), I(100))])))
         if 'G' in defs:
@@ -460,7 +476,9 @@ def dispatch_ast(d):
     c = {'m1': MC(t, 'm', [I(10)]), 'm0': MC(t, 'm', []), 'm2': MC(t, 'm', [I(1), I(2)]), 'plus': Op('+', t, I(1)), 'and': Op('&', t, B(True)),
          'index': Ix(t, I(0)), 'setindex': SIx(t, I(1), I(9)), 'get': MC(t, 'get', [I(1)]), 'set': MC(t, 'set', [I(0), I(4)]),
          'zz': MC(t, 'zz', [I(1)]), 'field': GF(t, 'tag'),
-         'eqnull': Op('==', t, N()), 'ne5': Op('!=', t, I(5)), 'feq': MC(t, 'eq', [N()]), 'fneq': MC(t, 'neq', [I(5)]), 'add1': MC(t, 'add', [I(1)])}[call]
+         'eqnull': Op('==', t, N()), 'ne5': Op('!=', t, I(5)), 'feq': MC(t, 'eq', [N()]), 'fneq': MC(t, 'neq', [I(5)]), 'add1': MC(t, 'add', [I(1)]),
+         'plus0': MC(t, '+', []), 'plus2': MC(t, '+', [I(1), I(2)]), 'lt3': MC(t, '<', [I(1), I(2), I(100)]),
+         'gt1': Op('>', t, I(1)), 'ge1': Op('>=', t, I(1))}[call]
     es += [Pr('r=~\\n', [c]), Pr('t=~\\n', [t]), Pr('after\\n')]
     return Top(es)
 
@@ -556,7 +574,7 @@ def c14(tier):
     if tier != 'thorough':
         small = [d for d in ds if d[0] != 'dispatch' or len(d) <= 4]
         deep = [d for d in ds if d[0] == 'dispatch' and len(d) > 4]
-        ds = small + deep[(seed() % 12)::12]
+        ds = small + deep[(seed() % 40)::40]
     progs = []
     for d in ds:
         ast = {'dispatch': dispatch_ast, 'alias': alias_ast, 'value': value_ast}[d[0]](d)
@@ -667,6 +685,8 @@ def deep_programs(tier):
     L.append(('large:ring-1000', 'let first = array(1, null); let cur = first; let i = 0; while i < 1000 do begin let nx = array(1, null); cur[0] <- nx; cur <- nx; i <- i + 1 end; cur[0] <- first; print("built\\n"); print("~\\n", first)'))
     L.append(('large:list-1000-print', 'let l = null; let i = 0; while i < 1000 do begin l <- object begin let next = l; let v = i end; i <- i + 1 end; print("~\\n", l)'))
     L.append(('large:parents-1000-dispatch', 'let o = 5; let i = 0; while i < 1000 do begin o <- object extends o begin end; i <- i + 1 end; print("~\\n", o + 1); print("~\\n", o.nosuch(1))'))
+    L.append(('large:cycle-after-20000-allocations', 'let i = 0; let keep = null; while i < 20000 do begin keep <- object extends keep begin end; i <- i + 1; keep <- null end; let a = array(1, null); a[0] <- a; print("built\\n"); print("~\\n", a)'))
+    L.append(('large:cycle-through-object-after-5000-arrays', 'let i = 0; while i < 5000 do begin array(1, i); i <- i + 1 end; let o = object begin let me = null end; o.me <- o; print("built\\n"); print("~\\n", o)'))
     L.append(('large:blocks-200', 'begin ' * 200 + 'print("deep\\n")' + ' end' * 200))
     L.append(('large:operators-200', 'print("~\\n", ' + '1 + (' * 200 + '1' + ')' * 200 + ')'))
     L.append(('large:mutual-cycle-1000', 'let a = array(1000, null); let i = 0; while i < 1000 do begin a[i] <- a; i <- i + 1 end; print("built\\n"); print("~\\n", a)'))
